@@ -782,7 +782,7 @@ def sweep(run, deep, corpus):
         if bad:
             f20 = bad == [F20_LABEL]
             if f20:
-                run.count("sweep:F20-class")
+                run.count("sweep:F22-class")
             key = (c.get("i"), bad[0], f20) if c["k"] == "fd" else (c["k"], bad[0], f20)
             if key in reported:
                 reported[key] += 1
@@ -841,7 +841,7 @@ def lexer_gate(run):
 
 
 def in_f20_class(data):
-    """exactly the class of known finding F20: the ONLY observation is the invocation from Lambda._call with, as the
+    """exactly the class of known finding F22: the ONLY observation is the invocation from Lambda._call with, as the
     lambda's VALUE, an object that the expression passed through call(name, args, kwargs[, receiver])"""
     if not isinstance(data, dict) or "sweep" not in data or not isinstance(data.get("observed"), dict):
         return False
